@@ -76,3 +76,77 @@ def passes_event(F, fn, is_event_call, depth=3, _memo=None, _stack=()):
 
 def fmt_path(fn, path):
     return " -> ".join(path_lines(fn, path)) if path else ""
+
+
+# ------------------------------------------------------------------ lossless narrowing (shared by C06, C09, C10, C16, C18)
+
+def narrowing_rule(F, R, rule, scope_text, in_scope, floor, audited=None):
+    """Every integer `as` cast to a type that cannot hold the whole source range is shown value-preserving: widening / same
+    width (all bits kept on purpose) / source range from dominating guards / enum discriminant / digit producer / audited."""
+    from ..pps import Discharger, INT_RANGE
+    from ..dataflow import op_place
+    audited = audited or {}
+    R.rule(rule, "no value-changing integer narrowing in %s: every `as` cast to a narrower (or differently signed, smaller-range) integer type is "
+                 "dominated by comparisons that keep the source inside the target's range, converts an enum discriminant or a digit that fits, keeps all "
+                 "bits on purpose (same-width reinterpretation), or is audited with a reason; a silently truncated value changes what is written, read "
+                 "or computed without any error" % scope_text)
+    n = 0
+    seen_k = {}
+    used = set()
+    for fn in sorted(F.fns.values(), key=lambda f: f.name):
+        if not in_scope(fn) or "::tests::" in fn.name:
+            continue
+        D = None
+        for bi, b in enumerate(fn.blocks):
+            if b.get("cleanup"):
+                continue
+            for st in b["s"]:
+                if st["k"] != "=" or st["rv"]["k"] != "cast" or st["rv"].get("ck") != "IntToInt" or st.get("exp"):
+                    continue
+                sp = op_place(st["rv"]["op"])
+                if sp is None or sp["p"] or st["lhs"]["p"]:
+                    continue
+                sty, dty = fn.local_ty(sp["l"]), fn.local_ty(st["lhs"]["l"])
+                if sty not in INT_RANGE or dty not in INT_RANGE:
+                    continue
+                n += 1
+                s, d = INT_RANGE[sty], INT_RANGE[dty]
+                k = (strip_generics(fn.name), sty, dty)
+                seen_k[k] = seen_k.get(k, -1) + 1
+                inst = "%s/%s->%s#%d" % (strip_generics(fn.name), sty, dty, seen_k[k])
+                if d[0] <= s[0] and s[1] <= d[1]:
+                    R.ok(rule, inst, "widening", fn.loc(st), how="type")
+                    continue
+                if (s[1] - s[0]) == (d[1] - d[0]):
+                    R.ok(rule, inst, "same-width reinterpretation (all bits kept)", fn.loc(st), how="type")
+                    continue
+                D = D or Discharger(F, fn)
+                src = D.src_local(st["rv"]["op"])
+                lo, hi = D.range_of(src["l"], bi) if src is not None and not src["p"] else (None, None)
+                if lo is not None and hi is not None and d[0] <= lo and hi <= d[1]:
+                    R.ok(rule, inst, "source in [%d, %d] by dominating guards" % (lo, hi), fn.loc(st), how="guard")
+                    continue
+                # enum discriminant: `x as uN` lowers to discriminant(x) -> isize -> cast
+                dd = D.defs.single(src["l"]) if src is not None and not src["p"] else None
+                if dd and dd[0] == "st" and dd[3]["k"] == "=" and dd[3]["rv"]["k"] == "discr":
+                    pl = dd[3]["rv"]["pl"]
+                    ety = fn.local_ty(pl["l"]).lstrip("&").replace("mut ", "").strip() if not [e for e in pl["p"] if e != "*"] else None
+                    en = F.enums.get(strip_generics(ety or "")) or F.enums.get(ety or "")
+                    if en and all(d[0] <= v[2] <= d[1] for v in en):
+                        R.ok(rule, inst, "discriminant of %s (%d variants, all fit %s)" % (ety, len(en), dty), fn.loc(st), how="enum")
+                        continue
+                # a digit: result of char::to_digit with a constant radix
+                pc = D._producer_call(st["rv"]["op"])
+                if pc is not None and strip_generics(callee_name(pc) or "").endswith("::to_digit") and len(pc["args"]) == 2:
+                    r = D.eval_const(pc["args"][1])
+                    if r is not None and r - 1 <= d[1]:
+                        R.ok(rule, inst, "digit below the constant radix %d" % r, fn.loc(st), how="digit")
+                        continue
+                if inst in audited:
+                    used.add(inst)
+                    R.ok(rule, inst, "audited: " + audited[inst], fn.loc(st), how="audited")
+                    continue
+                R.violation(rule, inst, "%s narrows %s to %s with `as` where the source is only known to lie in %s: values outside %s..=%s are silently "
+                            "truncated" % (fn.name, sty, dty, "[%s, %s]" % (lo if lo is not None else s[0], hi if hi is not None else s[1]), d[0], d[1]), fn.loc(st))
+    R.floor(rule, "integer casts examined", n, floor)
+    return n
